@@ -16,6 +16,16 @@ becomes a parameter of the generated definition:
   np.abs / np.angle / np.cos / np.sin ↦ abs / angle / cos / sin;  self.peak_values ↦ peak : Bool;
   an integer literal n ↦ ((n : Nat) : K).
 Anything else raises ExtractError.
+
+TransientSolution getters (tie of C19 / C12 to the source): every getter `get_potential / get_voltage /
+get_current / get_power` must be `def g(self, <p>): return <time>, <E>` — one statement, no decorator, no
+default — and `<E>` is translated into the expression tree `TExpr` (generated `transientTable`, one row per getter):
+  self._x ↦ .x;  self._u ↦ .u;  self._ssm.<m>(<name>) ↦ .ssm "<m>" "<name>";  self.get_*(<name>)[1] ↦ .series "get_*" "<name>";
+  a @ b ↦ .matmul;  a + b ↦ .add;  a - b ↦ .sub;  a * b ↦ .mul;  -a ↦ .neg;  a.T ↦ .transpose;
+  np.reshape(a, (-1,)) ↦ .flatten.
+A getter that wraps the row call (try/except, if, a local, a default for unknown ids) is outside the grammar: refusal.
+`self._ssm` must be assigned exactly once in the class, in `__post_init__`, from a call of `nodal_state_space_model`
+imported from `..Network.NodalAnalysis.state_space_model` (generated `transientSsm`).
 """
 from __future__ import annotations
 import ast
@@ -196,6 +206,118 @@ def lambda_body(fn: ast.FunctionDef, cx: Ctx) -> str:
         cx.env[f'__fn_{name}'] = f'({cx.prefix}_{name} {cx.params[1]} t)'
     return f'fun t => {tr(body, cx)}'
 
+# ---- TransientSolution: the getters as a table of expression trees
+TR_GETTERS = ('get_potential', 'get_voltage', 'get_current', 'get_power')
+TR_BIN = {ast.MatMult: 'matmul', ast.Add: 'add', ast.Sub: 'sub', ast.Mult: 'mul'}
+
+TEXPR_LEAN = '''/-- the value a `TransientSolution` getter returns, as an expression tree (translated from the Python AST):
+`x` / `u` = `self._x` / `self._u`; `ssm m a` = `self._ssm.m(a)` (`a` a bare name); `series g a` = `self.g(a)[1]`;
+`matmul` = `@`, `add` / `sub` / `mul` = numpy `+` / `-` / `*`, `neg` = unary minus, `transpose` = `.T`,
+`flatten a` = `np.reshape(a, (-1,))` -/
+inductive TExpr where
+  | x
+  | u
+  | ssm (accessor arg : String)
+  | series (getter arg : String)
+  | matmul (a b : TExpr)
+  | add (a b : TExpr)
+  | sub (a b : TExpr)
+  | mul (a b : TExpr)
+  | neg (a : TExpr)
+  | transpose (a : TExpr)
+  | flatten (a : TExpr)
+deriving DecidableEq, Repr
+
+/-- one getter `def getter(self, param): return time, value` of `TransientSolution` -/
+structure TransientRow where
+  getter : String
+  param : String
+  time : String
+  value : TExpr
+deriving DecidableEq, Repr
+'''
+
+def texpr(e, rel) -> str:
+    """value expression of a TransientSolution getter ↦ `TExpr` term; refuses outside the grammar"""
+    u = ast.unparse(e)
+    if u == 'self._x': return '.x'
+    if u == 'self._u': return '.u'
+    if isinstance(e, ast.BinOp) and type(e.op) in TR_BIN:
+        return f'(.{TR_BIN[type(e.op)]} {texpr(e.left, rel)} {texpr(e.right, rel)})'
+    if isinstance(e, ast.UnaryOp) and isinstance(e.op, ast.USub):
+        return f'(.neg {texpr(e.operand, rel)})'
+    if isinstance(e, ast.Attribute) and e.attr == 'T':
+        return f'(.transpose {texpr(e.value, rel)})'
+    def one_name(c):
+        return len(c.args) == 1 and not c.keywords and isinstance(c.args[0], ast.Name)
+    if isinstance(e, ast.Call):
+        f = dotted(e.func) or ''
+        if f == 'np.reshape' and len(e.args) == 2 and not e.keywords and ast.unparse(e.args[1]) == '(-1,)':
+            return f'(.flatten {texpr(e.args[0], rel)})'
+        if f.startswith('self._ssm.') and f.count('.') == 2 and one_name(e):
+            return f'(.ssm "{f[len("self._ssm."):]}" "{e.args[0].id}")'
+    if isinstance(e, ast.Subscript) and ast.unparse(e.slice) == '1' and isinstance(e.value, ast.Call):
+        f = dotted(e.value.func) or ''
+        if f.startswith('self.') and f[5:] in TR_GETTERS and one_name(e.value):
+            return f'(.series "{f[5:]}" "{e.value.args[0].id}")'
+    refuse(rel, e, f'TransientSolution getter expression outside the grammar: {u}')
+
+def transient_rows(cls: ast.ClassDef, rel: str) -> list[str]:
+    ms = methods(cls)
+    if sum(1 for st in cls.body if isinstance(st, ast.FunctionDef) and st.name in TR_GETTERS) != len(TR_GETTERS):
+        refuse(rel, cls, 'TransientSolution does not define each of its four getters exactly once')
+    for st in cls.body:
+        if not isinstance(st, (ast.FunctionDef, ast.AnnAssign, ast.Expr)) or \
+                (isinstance(st, ast.Expr) and not isinstance(st.value, ast.Constant)):
+            refuse(rel, st, 'TransientSolution: class-level statement outside the grammar (a getter could be rebound)')
+        if isinstance(st, ast.FunctionDef) and st.name in ('__getattr__', '__getattribute__'):
+            refuse(rel, st, 'TransientSolution intercepts attribute access')
+    rows = []
+    for name in TR_GETTERS:
+        fn = ms[name]
+        a = fn.args
+        if fn.decorator_list or a.posonlyargs or a.vararg or a.kwonlyargs or a.kwarg or a.defaults or a.kw_defaults \
+                or len(a.args) != 2 or a.args[0].arg != 'self':
+            refuse(rel, fn, f'TransientSolution.{name} is not a plain `def {name}(self, <id>)`')
+        if len(fn.body) != 1 or not isinstance(fn.body[0], ast.Return) or not isinstance(fn.body[0].value, ast.Tuple) \
+                or len(fn.body[0].value.elts) != 2:
+            refuse(rel, fn, f'TransientSolution.{name} is not the single statement `return <time>, <series>` '
+                            '(a guard, a try/except or a default around the row accessors is outside the grammar)')
+        t, v = fn.body[0].value.elts
+        if not (isinstance(t, ast.Attribute) and dotted(t) is not None):
+            refuse(rel, t, f'TransientSolution.{name}: time axis is not an attribute of self')
+        rows.append(f'{{ getter := "{name}", param := "{a.args[1].arg}", time := "{dotted(t)}",\n    value := {texpr(v, rel)} }}')
+    return rows
+
+def transient_ssm(tree: ast.Module, cls: ast.ClassDef, rel: str) -> str:
+    """where `self._ssm` comes from: (constructor, module it is imported from, arguments)"""
+    hits = []
+    for fn in cls.body:
+        if not isinstance(fn, ast.FunctionDef): continue
+        for node in ast.walk(fn):
+            targets = node.targets if isinstance(node, ast.Assign) else [node.target] if isinstance(node, (ast.AugAssign, ast.AnnAssign)) else \
+                [node.optional_vars] if isinstance(node, ast.withitem) and node.optional_vars is not None else \
+                [node.target] if isinstance(node, (ast.For, ast.NamedExpr)) else node.targets if isinstance(node, ast.Delete) else []
+            for tg in targets:
+                for sub in ast.walk(tg):
+                    if isinstance(sub, ast.Attribute) and dotted(sub) == 'self._ssm':
+                        hits.append((fn.name, node))
+            if isinstance(node, ast.Call) and dotted(node.func) in ('setattr', 'object.__setattr__', 'delattr'):
+                refuse(rel, node, 'TransientSolution rebinds attributes dynamically')
+    if len(hits) != 1 or hits[0][0] != '__post_init__' or not isinstance(hits[0][1], ast.Assign) or len(hits[0][1].targets) != 1 \
+            or not isinstance(hits[0][1].value, ast.Call) or not isinstance(hits[0][1].value.func, ast.Name):
+        refuse(rel, cls, 'TransientSolution._ssm is not assigned exactly once, in __post_init__, from a constructor call')
+    call = hits[0][1].value
+    ctor = call.func.id
+    mods = [(st.level, st.module) for st in tree.body if isinstance(st, ast.ImportFrom)
+            for al in st.names if (al.asname or al.name) == ctor]
+    bound_elsewhere = [st for st in tree.body if isinstance(st, (ast.FunctionDef, ast.ClassDef)) and st.name == ctor] + \
+        [st for st in tree.body if isinstance(st, ast.Assign) and any(isinstance(t, ast.Name) and t.id == ctor for t in st.targets)]
+    if len(mods) != 1 or bound_elsewhere or mods[0][0] != 2:
+        refuse(rel, hits[0][1], f'{ctor} is not bound by exactly one `from ..<module> import`')
+    args = [ast.unparse(x) for x in call.args] + [f'{k.arg}={ast.unparse(k.value)}' for k in call.keywords]
+    return f'("{ctor}", "{mods[0][1]}", [' + ', '.join(f'"{x}"' for x in args) + '])'
+
 SERIES_BODY = '''if self.one_sided:
     return (np.array(self.w), values)
 ac = slice(1, None) if len(self.w) > 0 and self.w[0] == 0 else slice(0, None)
@@ -321,5 +443,14 @@ def gen_solution(src) -> str:
                '`_require_node`: a terminal of some component, else KeyError) before the getter touches its list of solutions -/\n\n')
     out.append('def requireDefined : List String := [' + ', '.join(f'"{d}"' for d in defined) + ']\n\n')
     out.append('def requireTable : List (String × String × String) := [\n  ' + ',\n  '.join(rows) + ']\n')
+    # ---- TransientSolution: getter table
+    tcls = cs['TransientSolution']
+    rows = transient_rows(tcls, rel)
+    out.append('\n/-! ### TransientSolution getters (which row accessor of `self._ssm` each getter evaluates, with which argument,\n'
+               'and how the rows are combined with the simulated state `self._x` and the input samples `self._u`) -/\n\n')
+    out.append(TEXPR_LEAN)
+    out.append('\ndef transientTable : List TransientRow := [\n  ' + ',\n  '.join(rows) + ']\n')
+    out.append('\n/-- `self._ssm = <constructor>(<arguments>)` in `__post_init__`: (constructor, module it is imported from, arguments) -/\n')
+    out.append(f'def transientSsm : String × String × List String :=\n  {transient_ssm(tree, tcls, rel)}\n')
     out.append('\nend\nend CC.Gen.Sol\n')
     return ''.join(out)
